@@ -497,7 +497,12 @@ func zzPayload(wt byte) []byte {
 	case 13: // map<i32, string> with one entry
 		b := []byte{8, 11, 0, 0, 0, 1}
 		b = append(b, zzrt.Bytes("x", 4)...)
-		return append(b, 0, 0, 0, 1, zzrt.Byte("x"))
+		// the one byte of the string value is free among the bytes that are not a wire type: if a
+		// reader loses its place inside the map, the next "field type" it sees is invalid and the
+		// read ends there instead of forking over every wire type
+		sv := zzrt.Byte("x")
+		zzrt.Assume(sv >= 0x20)
+		return append(b, 0, 0, 0, 1, sv)
 	case 14, 15: // set/list<i16> with two elements
 		b := []byte{6, 0, 0, 0, 2}
 		return append(b, zzrt.Bytes("x", 4)...)
